@@ -922,3 +922,32 @@ mod test {
         assert_eq!(cache.put(4, 3), PutResult::Evicted { key: 1, value: 1 });
     }
 }
+
+// ---------------------------------------------------------------------------------------------
+// verification hooks (feature `verif-hooks`): read-only views and state assembly.
+#[cfg(feature = "verif-hooks")]
+#[doc(hidden)]
+impl<K: Hash + Eq, V, KH: KeyHasher<K>, FH: BuildHasher, RH: BuildHasher, WH: BuildHasher>
+    WTinyLFUCache<K, V, KH, FH, RH, WH>
+{
+    /// (estimator, window, main)
+    #[allow(clippy::type_complexity)]
+    pub fn verif_parts(
+        &self,
+    ) -> (
+        &TinyLFU<K, KH>,
+        &LRUCache<K, V, WH>,
+        &SegmentedCache<K, V, FH, RH>,
+    ) {
+        (&self.tinylfu, &self.lru, &self.slru)
+    }
+
+    /// Assembles a cache from already built parts.
+    pub fn verif_from_parts(
+        tinylfu: TinyLFU<K, KH>,
+        lru: LRUCache<K, V, WH>,
+        slru: SegmentedCache<K, V, FH, RH>,
+    ) -> Self {
+        Self { tinylfu, lru, slru }
+    }
+}
